@@ -12,11 +12,11 @@ def sh(cmd, cwd, timeout=900):
 def q(s):
     f = Fraction(s); return "(%d # %d)" % (f.numerator, f.denominator)
 
-STOKES = ["1,0,0,0", "2,0.5,0,0", "1,0,0.5,0.5", "3,-1,2,0.5", "1,1,0,0", "2,0,-2,0", "1,0.6,0,0.8", "0,0,0,0", "1,0.75,0.75,0", "1,1,1,0", "-1,0,0,0", "2,1,1,1"]
-BETAS = ["0.5", "1", "0.25", "2"]
-WIDTHS = ["2", "3", "4", "1", "8"]
-FRACS = ["0", "0.25", "0.5", "1", "0.75"]
-RHOS = ["0", "0.25", "-0.25", "0.5"]
+STOKES = ["1,0,0,0", "2,0.5,0,0", "1,0,0.5,0.5", "3,-1,2,0.5", "1,1,0,0", "2,0,-2,0", "1,0.6,0,0.8", "0,0,0,0", "1,0.75,0.75,0", "1,1,1,0", "-1,0,0,0", "2,1,1,1", "1,0.3,0.2,0.1", "1.7,-0.9,0.1,0.7"]
+BETAS = ["0.5", "1", "0.25", "2", "0.3", "1.7"]
+WIDTHS = ["2", "3", "4", "1", "8", "5", "12"]
+FRACS = ["0", "0.25", "0.5", "1", "0.75", "0.7", "0.9", "0.35", "0.1", "0.3", "0.45", "0.95"]   # decimal fractions are not exactly representable: the parsed value decides trunc(f n)
+RHOS = ["0", "0.25", "-0.25", "0.5", "0.1", "-0.3"]
 
 def gen_case(r, force=None):
     """returns (argv list, coq opt list)"""
@@ -41,7 +41,7 @@ def gen_case(r, force=None):
     if r.random() < 0.3:
         x = r.choice(RHOS); opts.append((["-k", x], "Optk %s" % q(x)))
     if r.random() < 0.7:
-        n = r.choice(["1", "2", "3", "4", "6"]); opts.append((["-n", n], "Optn %s%%nat" % n))
+        n = r.choice(["1", "2", "3", "4", "6", "5", "10", "20"]); opts.append((["-n", n], "Optn %s%%nat" % n))
     r.shuffle(opts)
     for a, c in opts: argv += a; coq.append(c)
     nl = r.choice(["1", "2", "3"]); argv += ["-X", nl]; coq.append("OptX %s%%nat" % nl)
@@ -108,6 +108,10 @@ def run(pid, cfg, bdir, repo, coqlib, note):
               (["-s", "1,1,1,0", "-X", "1"], ["Opts false %s %s %s %s" % (q("1"), q("1"), q("1"), q("0")), "OptX 1%nat"]),
               (["-S", "-s", "B1,1,1,0", "-X", "1"], ["OptS", "Opts true %s %s %s %s" % (q("1"), q("1"), q("1"), q("0")), "OptX 1%nat"]),
               (["-C", "0", "-n", "4", "-X", "2"], ["OptC %s" % q("0"), "Optn 4%nat", "OptX 2%nat"]),
+              (["-C", "0.7", "-n", "10", "-X", "2"], ["OptC %s" % q("0.7"), "Optn 10%nat", "OptX 2%nat"]),
+              (["-C", "0.9", "-n", "10", "-s", "2,1,0,0", "-s", "B1,0,0.5,0", "-X", "2"], ["OptC %s" % q("0.9"), "Optn 10%nat", "Opts false %s %s %s %s" % (q("2"), q("1"), q("0"), q("0")), "Opts true %s %s %s %s" % (q("1"), q("0"), q("0.5"), q("0")), "OptX 2%nat"]),
+              (["-C", "0.35", "-n", "20", "-l", "0.5", "-X", "1"], ["OptC %s" % q("0.35"), "Optn 20%nat", "Optl false %s" % q("0.5"), "OptX 1%nat"]),
+              (["-D", "0.7", "-n", "10", "-X", "2"], ["OptD %s" % q("0.7"), "Optn 10%nat", "OptX 2%nat"]),
               (["-D", "1", "-l", "0.5", "-b", "4", "-n", "4", "-X", "2"], ["OptD %s" % q("1"), "Optl false %s" % q("0.5"), "Optb false 4%nat", "Optn 4%nat", "OptX 2%nat"])]
     # the model, inside Coq
     v = os.path.join(bdir, "C17_cases.v")
